@@ -693,7 +693,7 @@ def analyse_class(cls, tu, flt, roots):
         annotate(d)
     ci = ClassInfo(cls, docs, roots)
     found = set()
-    root_rows, confined, reached = [], [], set()
+    root_rows, confined, reached, ts_asserting = [], [], set(), []
     for fn in ci.defs:
         nm = fn["name"]
         if nm in roots and fn.get("kind") == "CXXMethodDecl":
@@ -706,6 +706,9 @@ def analyse_class(cls, tu, flt, roots):
             reached.add(ci.label(fn))
             if roots[nm] == "confined":
                 confined.append((ci.label(fn), w.top_assert[0] if w.top_assert else "", w.top_assert[1] if w.top_assert else 0))
+            elif roots[nm] in ("ts", "owner") and w.top_assert:
+                # a "thread-safe" operation that unconditionally reaches an owner-thread assertion fails off-thread
+                ts_asserting.append((ci.label(fn), w.top_assert[0], w.top_assert[1]))
     missing = set(roots) - found
     if missing and not (cls in ("BlockingQueue",) and missing <= {"drain"}):
         raise ExtractError("class %s: root function(s) %s not found (renamed or removed?)" % (cls, sorted(missing)))
@@ -732,6 +735,7 @@ def analyse_class(cls, tu, flt, roots):
                 ci.byname[r[4]]["writers"].add(ci.label(fn))
         if touches and ci.label(fn) not in reached:
             unreached.append((ci.label(fn), rows))
+    ci.ts_asserting = ts_asserting
     return ci, root_rows, confined, unreached
 
 
@@ -811,7 +815,7 @@ def tables():
     """the raw tables as plain data (what `generate` renders as Lean text and what the C08 plug-in re-checks
     in Python): {"fields": [...], "roots": [...], "confinedOps": [...], "rows": [...]}, all dicts"""
     res, (glob, lrows, lunreached) = collect()
-    fields, rows, roots, confined = [], [], [], []
+    fields, rows, roots, confined, ts_asserting = [], [], [], [], []
     for ci, root_rows, conf, unreached in res:
         for f in ci.fields.values():
             fields.append((ci.cls, f))
@@ -821,6 +825,8 @@ def tables():
                 rows.append((ci.cls, r[0], kind) + r[1:])
         for label, who, line in conf:
             confined.append((ci.cls, label, who, line))
+        for label, who, line in ci.ts_asserting:
+            ts_asserting.append((ci.cls, label, who, line))
         for label, rs in unreached:
             for r in rs:
                 rows.append((ci.cls, "?" + r[0], "other") + r[1:])
@@ -846,6 +852,7 @@ def tables():
                     "guardedBy": f["guard"], "writers": sorted(f["writers"])} for c, f in fields],
         "roots": [{"cls": c, "fn": l, "qname": c + "::" + l.lstrip("?").split("(")[0], "kind": k} for c, l, k in roots],
         "confinedOps": [{"cls": c, "fn": l, "check": w, "line": ln} for c, l, w, ln in confined],
+        "tsAsserting": [{"cls": c, "fn": l, "check": w, "line": ln} for c, l, w, ln in ts_asserting],
         "rows": [{"cls": r[0], "root": r[1], "rootKind": r[2], "fn": r[3], "file": r[4], "line": r[5], "field": r[6],
                   "kind": r[7], "callee": r[8], "locks": list(r[9]), "inLoop": list(r[10]), "inAssert": bool(r[11])}
                  for r in rows],
@@ -887,6 +894,12 @@ def generate():
     out.append("def confinedOps : List ConfinedOp := [")
     out.append(",\n".join("  { cls := %s, fn := %s, check := %s, line := %d }" % (lean_str(c), lean_str(l), lean_str(w), ln)
                           for c, l, w, ln in confined))
+    out.append("]\n")
+    out.append("/-- thread-safe / single-owner roots in which an owner-thread assertion is an unconditional top-level statement\n"
+               "(directly or through a method of the class called unconditionally): such an operation aborts off-thread -/")
+    out.append("def tsAsserting : List ConfinedOp := [")
+    out.append(",\n".join("  { cls := %s, fn := %s, check := %s, line := %d }" % (lean_str(o["cls"]), lean_str(o["fn"]), lean_str(o["check"]), o["line"])
+                          for o in t["tsAsserting"]))
     out.append("]\n")
     out.append("/-- one row per member access reached from a root -/")
     # chunk the table so that no single definition becomes huge
